@@ -319,7 +319,7 @@ class NC:
         LOG.append(("c", self))
 
 
-def _nested_once(decl, bits, nested_pos, src, xs, depth=1):
+def _nested_once(decl, bits, nested_pos, src, xs, depth=1, bname="b"):
     """Components a, b, c; b holds a nested class argument `inner`. One link feeds `b.inner.init_args.d` from another
     component (a nested target: it is built as part of b, so its source must be built before b); the other links are a
     solver-chosen subset of the six plain ones; nested_pos says after how many of them the nested link is added."""
@@ -327,10 +327,11 @@ def _nested_once(decl, bits, nested_pos, src, xs, depth=1):
 
     names = ["a", "b", "c"]
     classes = {"a": NA, "b": NB if depth == 1 else NB2, "c": NC}
-    nested_target = "b.inner.init_args.d" if depth == 1 else "b.inner.init_args.leaf.init_args.d"
+    key = {"a": "a", "b": bname, "c": "c"}  # the key of component b may itself end in 'init_args'
+    nested_target = f"{bname}.inner.init_args.d" if depth == 1 else f"{bname}.inner.init_args.leaf.init_args.d"
     parser = ArgumentParser(exit_on_error=False)
     for name in decl:
-        parser.add_class_arguments(classes[name], name)
+        parser.add_class_arguments(classes[name], key[name])
     pairs = [(s, t) for s in names for t in names if s != t]
     todo = [("plain", s, t) for n, (s, t) in enumerate(pairs) if bits[n]]
     todo.insert(min(nested_pos, len(todo)), ("nested", src, "b"))
@@ -339,7 +340,7 @@ def _nested_once(decl, bits, nested_pos, src, xs, depth=1):
         would = edges + [(names.index(s), names.index(t))]
         cyc = _cyclic(3, would)
         try:
-            parser.link_arguments(f"{s}.out", nested_target if kind == "nested" else f"{t}.y_{s}", apply_on="instantiate")
+            parser.link_arguments(f"{key[s]}.out", nested_target if kind == "nested" else f"{key[t]}.y_{s}", apply_on="instantiate")
             raised = False
         except ValueError:
             raised = True
@@ -350,8 +351,8 @@ def _nested_once(decl, bits, nested_pos, src, xs, depth=1):
             return True
         edges = would
     S.note(f"links={len(edges)}")
-    obj = {n: {"x": xs[n]} for n in names}
-    obj["b"]["inner"] = {"class_path": f"{__name__}.Inner"} if depth == 1 else {"class_path": f"{__name__}.Mid", "init_args": {"leaf": {"class_path": f"{__name__}.Leaf"}}}
+    obj = {key[n]: {"x": xs[n]} for n in names}
+    obj[bname]["inner"] = {"class_path": f"{__name__}.Inner"} if depth == 1 else {"class_path": f"{__name__}.Mid", "init_args": {"leaf": {"class_path": f"{__name__}.Leaf"}}}
     cfg = parser.parse_object(obj)
     del LOG[:]
     try:
@@ -369,7 +370,7 @@ def _nested_once(decl, bits, nested_pos, src, xs, depth=1):
             return Fail("nested:target-built-before-source", built=built, edges=edges)
     objs = dict(LOG)
     holder = objs["b"].inner if depth == 1 else objs["b"].inner.leaf
-    if init["b"] is not objs["b"] or holder is not objs["inner"]:
+    if init[bname] is not objs["b"] or holder is not objs["inner"]:
         return Fail("nested:result-is-not-the-constructed-object")
     got = objs["inner"].d
     if not isinstance(got, int) or got != objs[src].out:
@@ -384,9 +385,9 @@ def _nested_once(decl, bits, nested_pos, src, xs, depth=1):
     return True
 
 
-def nested(decl, src, shard=None, depth=1):
+def nested(decl, src, shard=None, depth=1, bname="b"):
     decl = list(decl)
-    _nested_once(decl, [False] * 6, 0, src, {n: 1 for n in "abc"}, depth)
+    _nested_once(decl, [False] * 6, 0, src, {n: 1 for n in "abc"}, depth, bname)
 
     def harness():
         bits = [S.flag(f"link{n}") for n in range(6)]
@@ -396,7 +397,7 @@ def nested(decl, src, shard=None, depth=1):
         if nested_pos > sum(1 for b in bits if b):
             return None
         xs = {n: S.int(f"x_{n}") for n in "abc"}
-        return _nested_once(decl, bits, nested_pos, src, xs, depth)
+        return _nested_once(decl, bits, nested_pos, src, xs, depth, bname)
 
     return harness
 
@@ -535,6 +536,8 @@ def main(rep, tier):
         for decl in ((("b", "c", "a"),) if tier == "quick" else itertools.permutations(("a", "b", "c"))):
             for sh in range(8):
                 jobs.append(dict(module="c16", func="nested", kwargs=dict(decl=list(decl), src=src, shard=sh), timeout=600 if tier == "quick" else 1800))
+    for sh in range(8):  # a component whose own key ends in 'init_args'
+        jobs.append(dict(module="c16", func="nested", kwargs=dict(decl=["b", "c", "a"], src="c", shard=sh, bname="w_init_args"), timeout=600 if tier == "quick" else 1800))
     for src in (("c",) if tier == "quick" else ("a", "c")):  # the linked parameter two levels below the component (b.inner.init_args.leaf.init_args.d)
         for sh in range(8):
             jobs.append(dict(module="c16", func="nested", kwargs=dict(decl=["b", "c", "a"], src=src, shard=sh, depth=2), timeout=600 if tier == "quick" else 1800))
